@@ -99,6 +99,16 @@ type checkerContext struct {
 	currentReceiver *receiverInfo
 }
 
+// inConstructor reports whether the enclosing function is a declared constructor
+// of the given type. Constructors are functions of the type's own package: a
+// function that merely has the same name in another package is not exempt.
+func (ctx *checkerContext) inConstructor(pkgPath string, typeName string) bool {
+	if ctx.pass.Pkg == nil || ctx.pass.Pkg.Path() != pkgPath {
+		return false
+	}
+	return ctx.constructors.Match(pkgPath, *ctx.currentFunction, typeName)
+}
+
 // receiverInfo contains information about a method's receiver
 // @immutable
 type receiverInfo struct {
@@ -202,7 +212,7 @@ func checkFieldAssignment(
 		return nil
 	}
 
-	if ctx.constructors.Match(pkgPath, *ctx.currentFunction, typeName) {
+	if ctx.inConstructor(pkgPath, typeName) {
 		return nil
 	}
 
@@ -256,7 +266,7 @@ func checkIndexAssignment(
 		return nil
 	}
 
-	if ctx.constructors.Match(pkgPath, *ctx.currentFunction, typeName) {
+	if ctx.inConstructor(pkgPath, typeName) {
 		return nil
 	}
 
@@ -332,7 +342,7 @@ func checkFieldIncDec(
 		return nil
 	}
 
-	if ctx.constructors.Match(pkgPath, *ctx.currentFunction, typeName) {
+	if ctx.inConstructor(pkgPath, typeName) {
 		return nil
 	}
 
@@ -382,7 +392,7 @@ func checkReceiverIncDec(
 	}
 
 	// Allow in constructors
-	if ctx.constructors.Match(ctx.currentReceiver.pkgPath, *ctx.currentFunction, ctx.currentReceiver.typeName) {
+	if ctx.inConstructor(ctx.currentReceiver.pkgPath, ctx.currentReceiver.typeName) {
 		return nil
 	}
 
@@ -453,7 +463,7 @@ func checkCompoundLHS(
 		return nil
 	}
 
-	if ctx.constructors.Match(pkgPath, *ctx.currentFunction, typeName) {
+	if ctx.inConstructor(pkgPath, typeName) {
 		return nil
 	}
 
@@ -501,7 +511,7 @@ func checkReceiverReassignment(
 	}
 
 	// Allow reassignment in constructors
-	if ctx.constructors.Match(ctx.currentReceiver.pkgPath, *ctx.currentFunction, ctx.currentReceiver.typeName) {
+	if ctx.inConstructor(ctx.currentReceiver.pkgPath, ctx.currentReceiver.typeName) {
 		return nil
 	}
 
